@@ -66,9 +66,9 @@ CLAIMED["C09"] = dict(
     technique="Coq proof (flattening) + paired whole-simulation runs compared in Coq",
     ref="5/C09")
 CLAIMED["C10"] = dict(
-    text="Coq theorems: topics of different components never coincide and no input topic is an output topic, over constants re-extracted from the source each run (C10_topics_disjoint); a device update touches only that device's state and a component outside a tick's extent is untouched (C10_update_frame, C10_outside_extent_untouched); one whole tick of a flat level and of the level extended by a disconnected part X of any behaviour, placed anywhere, roots or not, gives every old device the same observation and state (C10_tick_noninterference); whole runs from start-up in simulation time - X may consist of devices AND whole system simulations nested to any depth (a nested tick touches only its own subtree: C10_system_footprint), with their own callbacks, causing extra and merged ticks - give every base device exactly the same observation sequence, by a stuttering simulation proved for every configuration and device behaviour (C10_run_noninterference), transferred to the real-time master model at speed 1 (C10_master_noninterference: Model/SimTime.v is proved equal to it there and compared with it on every applicable generated case, code 55). For nested configurations, interrupts, pacing and adapters non-interference is decided per pair of runs of the real classes: configuration vs configuration + disconnected devices/system simulations (91), probe adapters notified exactly once per own update, the shipped EpicsAdapter/CommandAdapter driven without network; topic collisions are also searched directly on the real topic functions.",
-    note=TB + "the virtual-time event loop, a stub for softioc's builder. PARTIAL: the run-level theorem covers a flat base simulation (the added part may be nested) without interrupts in simulation time; nested bases, interrupts and adapters are pairwise-tested. Integer speeds only in the pairs (rounding of the real-time deadline may differ by 1 ns otherwise, which is not an observation of any device).",
-    technique="Coq proof (topic injectivity, frame lemmas, tick-level relation, stuttering simulation over whole runs) + paired whole-simulation runs compared in Coq + adapter-level differential runs",
+    text="Coq theorems: topics of different components never coincide and no input topic is an output topic, over constants re-extracted from the source each run (C10_topics_disjoint); a device update touches only that device's state and a component outside a tick's extent is untouched (C10_update_frame, C10_outside_extent_untouched); a nested tick touches only the devices and schedulers of its own subtree and depends only on that subtree's part of the state and configuration (C10_system_footprint, C10_system_depends_on_subtree_only); one whole tick, and whole runs from start-up in simulation time, of a simulation whose top level holds devices and system simulations (any depth) and of the same simulation extended at the top level by a disconnected part X - devices and whole system simulations of any depth, any behaviour, their own callbacks causing extra and merged ticks - give every base device at every depth exactly the same observation sequence and leave the base's state equal (C10_tick_noninterference, C10_run_noninterference: a stuttering simulation proved for every configuration and device behaviour), transferred to the real-time master model at speed 1 for flat simulations (C10_master_noninterference: Model/SimTime.v is proved equal to it there and compared with it on every applicable generated case, code 55). With interrupts, real-time pacing and adapters non-interference is decided per pair of runs of the real classes: configuration vs configuration + disconnected devices/system simulations (91), probe adapters notified exactly once per own update, the shipped EpicsAdapter/CommandAdapter driven without network; topic collisions are also searched directly on the real topic functions.",
+    note=TB + "the virtual-time event loop, a stub for softioc's builder. PARTIAL: the run-level theorem is about simulation time without interrupts and about parts added at the top level; a part added inside a system simulation, interrupts, pacing and adapters are pairwise-tested. Integer speeds only in the pairs (rounding of the real-time deadline may differ by 1 ns otherwise, which is not an observation of any device).",
+    technique="Coq proof (topic injectivity, frame and footprint/agreement lemmas of the nested model, tick-level relation, stuttering simulation over whole runs) + paired whole-simulation runs compared in Coq + adapter-level differential runs",
     ref="5/C10")
 CLAIMED["C11"] = dict(
     text="Coq theorems over Model/FailStop.v for every component tree and every failing device: the stop broadcast reaches every component of every depth (C11_broadcast_reaches_subtree, C11_all_stopped); the pinned tree's behaviour (nested components not stopped) is refuted by a witness. Tied to the real code by running whole flat/nested simulations through TickitSimulation.run() where device d raises at its n-th update for every (d, n) and adapter hooks fail, on the in-memory bus and under delayed, reordered delivery (harness/cbus.py registered as a backend): which exception the master handled, which components ran stop_component, whether run() returned, whether another tick started - compared in Coq.",
